@@ -41,7 +41,8 @@ CLAIMED = {
              "unbounded length) to forward signals in place and exactly the travelers their documented meaning keeps, in order, to close "
              "their output once, and for limit/skip/range to emit the closed-form number of rows (min(N,n), max(0,N-n), range arithmetic); "
              "traveler copy-on-step (AddCurrent, AddMark) is proved pointwise (marks, path, current, signal). Lookup/adjacency steps, "
-             "render/path/unwind/distinct/select, the typing table and the pipeline wiring are not yet under contract.",
+             "render/path/unwind/distinct/select and the pipeline wiring are not under contract. Typing: StatementProcessor is proved against the "
+             "table tnext and DefaultCompiler.Compile (no optimizers, no options) to return the fold of that table over the statements or an error.",
         ref="§5 C01",
         note=TRUST + " Trusted composition principle (Kahn determinacy, DESIGN §4.3): a network of such sequential processes over FIFO channels "
              "computes the composition of their history functions; channel sends never block in the model; stream lengths < 2^32 (2^31 for range).",
@@ -51,8 +52,9 @@ CLAIMED = {
         text="Partial: insertVertex, insertEdge, AddVertex, AddEdge, DelEdge, AddGraph, DeleteGraph (and the index registry functions they call) are "
              "proved against an abstract key-value store: each postcondition determines every stored key (the keys written/removed and the frame), "
              "invalid elements change nothing, DelEdge removes exactly the edge key and its two adjacency entries, DeleteGraph removes every key of the "
-             "graph's five families and none of another graph, and the timestamp is touched exactly for the mutated graph. DelVertex, BulkAdd, the "
-             "readers and the label-index maintenance (C09) are not yet under contract.",
+             "graph's five families and none of another graph, and the timestamp is touched exactly for the mutated graph; DelVertex and BulkAdd likewise "
+             "(with the recorded findings); the point reads GetVertex/GetEdge return the element stored under the id's key and nil when it is absent. "
+             "The list and channel readers and the composition over histories are not under contract.",
         ref="§5 C03",
         note=TRUST + " Assumed: the kvi interface contract (spec/kv.gvc: one ordered byte-string map; proved per driver under C10), AddDocTx writes only "
              "index keys, proto.Marshal/Unmarshal inverse, byte-order and prefix axioms of spec/kv.smt2 and spec/keys.smt2.",
@@ -165,7 +167,7 @@ CLAIMED = {
         technique="contract-based deductive verification: WP/VC generation over go/ssa + SMT (z3/cvc5)"),
     "C14": dict(
         level="other",
-        text="Partial (typing half): the core compiler (StatementProcessor) and the MongoDB compiler (Compiler.Compile, native path) are "
+        text="Partial (typing half): the core compiler (StatementProcessor and DefaultCompiler.Compile) and the MongoDB compiler (Compiler.Compile, native path) are "
              "both proved against one typing table tnext(statement, type) covering 25 statement kinds (V, E, in/out/both and their "
              "Null and edge variants, has/hasLabel/hasKey/hasId, distinct, fields, limit/skip/range, count, render, path, aggregate): "
              "for every statement sequence of covered kinds the MongoDB compiler's result type is the fold of the table, i.e. the type "
